@@ -85,6 +85,11 @@ pub enum Step {
     /// the administrator (another session) replaces the user's permission list; None = removes it
     Permissions(Option<String>),
     Command { cmd: Cmd, key: String },
+    /// the administrator requests a snapshot and the background snapshot runs on every node: keys written so far
+    /// (user tokens, permission lists) are persisted, so removing one afterwards leaves a tombstone in memory
+    Snapshot,
+    /// the administrator removes the user (`remove $$user_u1`): its token no longer opens anything
+    RemoveUser,
 }
 
 #[derive(Clone, Debug, Serialize, Deserialize)]
@@ -139,7 +144,7 @@ fn gen(rng: &mut Rng) -> Program {
                 if rng.chance(1, 2) {
                     Login::UserWrongToken
                 } else {
-                    Login::GhostUser { name: ["all", "ghost"][rng.below(2) as usize].to_string() }
+                    Login::GhostUser { name: ["all", "ghost", "u1"][rng.below(3) as usize].to_string() }
                 }
             }
         }));
@@ -163,11 +168,18 @@ fn gen(rng: &mut Rng) -> Program {
                     if rng.chance(1, 2) {
                         Login::UserWrongToken
                     } else {
-                        Login::GhostUser { name: ["all", "ghost"][rng.below(2) as usize].to_string() }
+                        Login::GhostUser { name: ["all", "ghost", "u1"][rng.below(3) as usize].to_string() }
                     }
                 }
             }),
-            1 => Step::Permissions(if rng.chance(1, 5) { None } else { Some(PERMS[rng.below(PERMS.len() as u64) as usize].to_string()) }),
+            1 => Step::Permissions(if rng.chance(1, 4) { None } else { Some(PERMS[rng.below(PERMS.len() as u64) as usize].to_string()) }),
+            2 => {
+                if rng.chance(2, 3) {
+                    Step::Snapshot
+                } else {
+                    Step::RemoveUser
+                }
+            }
             _ => Step::Command { cmd: ALL_CMDS[rng.below(ALL_CMDS.len() as u64) as usize].clone(), key: KEYS[rng.below(KEYS.len() as u64) as usize].to_string() },
         });
     }
@@ -637,8 +649,25 @@ fn execute(prog: Program, cluster: bool) -> Outcome {
     // Some(None) = database token session, Some(Some(user)) = user token session
     let mut selected: Option<Option<String>> = None;
     let mut uniq = 0;
+    let mut user_exists = true;
     for (i, step) in prog.steps.iter().enumerate() {
         match step {
+            Step::Snapshot => {
+                admin.exec("snapshot false");
+                if cluster {
+                    w.settle(100, 2_000);
+                }
+                for n in 0..w.nodes.len() {
+                    w.declutter_tick(n, 5_000);
+                }
+            }
+            Step::RemoveUser => {
+                admin.exec("remove $$user_u1");
+                user_exists = false;
+                if cluster {
+                    w.settle(100, 2_000);
+                }
+            }
             Step::Login(l) => {
                 let before_sel = s.client.selected_db_name();
                 let before_user = s.client.selected_db_user_name();
@@ -649,7 +678,7 @@ fn execute(prog: Program, cluster: bool) -> Outcome {
                     Login::DbToken => ("use-db d tok".to_string(), true),
                     Login::WrongToken => ("use-db d nope".to_string(), false),
                     Login::UnknownDb => ("use-db nosuch tok".to_string(), false),
-                    Login::UserToken => ("use-db d u1 pw1".to_string(), true),
+                    Login::UserToken => ("use-db d u1 pw1".to_string(), user_exists),
                     Login::UserWrongToken => ("use-db d u1 nope".to_string(), false),
                     Login::GhostUser { name } => (format!("use-db d {} <Empty>", name), false),
                 };
@@ -657,15 +686,15 @@ fn execute(prog: Program, cluster: bool) -> Outcome {
                 match l {
                     Login::AdminOk => is_admin = true,
                     Login::DbToken => selected = Some(None),
-                    Login::UserToken => selected = Some(Some("u1".into())),
+                    Login::UserToken if user_exists => selected = Some(Some("u1".into())),
                     _ => {}
                 }
-                if !ok && matches!(l, Login::WrongToken | Login::UnknownDb | Login::UserWrongToken | Login::GhostUser { .. }) {
+                if !ok && matches!(l, Login::WrongToken | Login::UnknownDb | Login::UserWrongToken | Login::GhostUser { .. } | Login::UserToken) {
                     // a failed use-db leaves the previous selection untouched
                     if s.client.selected_db_name() != before_sel || s.client.selected_db_user_name() != before_user {
                         out.violations.push(Violation::new(
                             "failed-use-db-changed-selection",
-                            format!("{:?}", l),
+                            format!("{:?}{}", l, if user_exists { "" } else { ":user-removed" }),
                             format!("step #{} `{}` failed but the selection went {:?}/{:?} -> {:?}/{:?}", i, cmdline, before_sel, before_user, s.client.selected_db_name(), s.client.selected_db_user_name()),
                         ));
                     }
